@@ -48,7 +48,7 @@ theorem C11_root_token (s : Sys) (t : Nat) (v n : String) (tr sp : Nat) (b : Boo
     ∃ inner, assocGet (exec s t (.root v n tr sp b)).1.spans v = some (some inner) ∧
       inner.token.map (fun it => (it.traceId, it.parentId, it.isSampled)) = [(tr, sp, b)] := by
   have hl : s.regLocked = false := by simp [Sys.regLocked, hc]
-  simp only [exec, hr, hl]
+  simp only [exec, Sys.rootOp, hr, hl]
   cases b <;> simp [Sys.newSpan, assocGet_assocSet_same]
 
 /-- … and the collector stamps a token item's `(trace, parent)` on the record: the record of
@@ -62,6 +62,20 @@ theorem C11_record_of_item (conv : Nat → Nat) (raw : RawSpan) (trace parent : 
 /-- the same through a traceparent round trip (C12) -/
 theorem C11_via_traceparent (c : SpanContext) (h : c.WF) :
     decodeTraceparent (encodeTraceparent c) = some c := C12_decode_encode c h
+
+/-- **a root created from an extracted context continues that span's trace under that span**:
+    `Span::root(name, SpanContext::from_span(&p)?)` — directly or after the context travelled as a
+    traceparent string (`C11_via_traceparent`) — creates a root whose token names the first
+    parent trace of `p`, `p`'s own id as parent, and that trace's sampling decision; by
+    `C11_record_of_item` its record is delivered in that trace under `p` -/
+theorem C11_rootFrom_token (s : Sys) (t : Nat) (v n p : String) (tp : Bool) (sp : SpanInner) (it : TokenItem) (rest : Token)
+    (hp : assocGet s.spans p = some (some sp)) (htok : sp.token = it :: rest)
+    (hr : s.reporterReady = true) (hc : s.cyc = none) :
+    ∃ inner, assocGet (exec s t (.rootFrom v n p tp)).1.spans v = some (some inner) ∧
+      inner.token.map (fun x => (x.traceId, x.parentId, x.isSampled)) = [(it.traceId, sp.raw.id, it.isSampled)] := by
+  have hl : s.regLocked = false := by simp [Sys.regLocked, hc]
+  simp only [exec, hp, issueToken, htok, List.map_cons, ctxOfToken, Sys.rootOp, hr, hl]
+  cases it.isSampled <;> simp [Sys.newSpan, assocGet_assocSet_same]
 
 /-- **whole programs**: whatever the program, a context extracted anywhere (from a span handle or
     from the local parent) names a trace that some `root` operation of the program created, with
